@@ -362,6 +362,20 @@ def value_eq(m, a, b, sp):
         if isinstance(a, int) and isinstance(b, int):
             return a == b
         return ("icmp", "Eq", a, b)
+    if isinstance(a, bool) and isinstance(b, bool):
+        return a == b
+    if isinstance(a, VStruct) and isinstance(b, VStruct) and a.path == b.path and a.path in (OPTION, RESULT):
+        # derived equality of Option/Result: same variant and equal payloads
+        if a.variant != b.variant:
+            return False
+        if not a.fields:
+            return True
+        x, y = a.fields[0], b.fields[0]
+        while isinstance(x, VRef):
+            x = load(m, x)
+        while isinstance(y, VRef):
+            y = load(m, y)
+        return value_eq(m, x, y, sp)
     return ("bopq", m.new_name("eq"))
 
 
@@ -433,6 +447,10 @@ def into_iter(m, ref, args, t, sp):
             p = m.db.find_impl_method("core::iter::traits::collect::IntoIterator", "&" + tgt.path, "into_iter")
             if p:
                 return m.call_local(m.db.fns[p], [v], sp)
+        if v.mut and isinstance(tgt, VModel):
+            # `&mut I` is itself an iterator (`Iterator::by_ref`): the model object is shared, so the
+            # items consumed through the reference are gone from the original too
+            return tgt
     if isinstance(v, VArray):
         c = Cell(v)
         return VModel("array_iter", cell=c, pos=0)
@@ -735,6 +753,10 @@ def iter_next(m, ref, args, t, sp):
             it.fields[0] = simp(Lin.lift(s) + 1)
             return some(s)
         return none()
+    if isinstance(it, VStruct) and it.path.endswith("::RangeFrom"):
+        s = simp(it.fields[0])           # `n..`: never ends (overflow of the counter is out of reach of a finite input)
+        it.fields[0] = simp(Lin.lift(s) + 1)
+        return some(s)
     if isinstance(it, VStruct) and it.path.endswith("::RangeInclusive"):
         s, e, ex = simp(it.fields[0]), simp(it.fields[1]), it.fields[2]
         if ex:
@@ -1707,6 +1729,12 @@ def convert_from(m, ref, args, t, sp):
         return v
     if is_float(v) and names and all(n_ in ("f64", "f32") for n_ in names):
         return v
+    if (isinstance(v, bool) or is_cond(v)) and any(n_ == "bool" for n_ in names):
+        # `usize::from(b)`, `u64::from(b)`, `f64::from(b)`: false -> 0, true -> 1
+        tv = v if isinstance(v, bool) else m.truth(v, sp, "from(bool)")
+        if any(n_ in ("f64", "f32") for n_ in names):
+            return F.lit(1.0 if tv else 0.0)
+        return 1 if tv else 0
     p = None
     if isinstance(v, VStruct):
         for a in (ref.get("resolved_targs") or ref.get("targs") or []):
@@ -2587,3 +2615,313 @@ for _p in ("core::slice::<impl [T]>::", "alloc::slice::<impl [T]>::", "std::slic
         BY_NAME[_p + _n] = slice_sort_by
     for _n in ("sort_by_key", "sort_unstable_by_key", "sort_by_cached_key"):
         BY_NAME[_p + _n] = slice_sort_by_key
+
+
+# ---------------------------------------------------------------------------------------------
+# Less common adaptors (seeded batch j: a defect hidden behind an idiom is only found when the idiom
+# has a model).  Each follows the documented behaviour of core; the terminating adaptors (`scan`,
+# `take_while`, `map_while`) END the iteration on the first `None`/false — and `take_while` has then
+# already consumed that element from the underlying iterator.
+
+def _next_any(m, inner, sp, ty=None):
+    if isinstance(inner, VModel):
+        return model_next(m, inner, sp, ty)
+    c = Cell(inner)
+    o = iter_next(m, None, [VRef(c, (), True)], None, sp)
+    return o.fields[0] if o.variant == 1 else None
+
+
+def _recv_iter(m, a, sp):
+    """the iterator an adaptor is called on: by value, or `&mut I` (by_ref) — the model object is shared"""
+    if isinstance(a, VRef):
+        tgt = m.read_loc(a.cell, a.path)
+        if isinstance(tgt, VModel):
+            return tgt
+        return iter_of(m, tgt, sp)
+    return iter_of(m, a, sp)
+
+
+def iter_scan(m, ref, args, t, sp):
+    return VModel("scan", inner=_recv_iter(m, args[0], sp), state=Cell(args[1]), f=args[2], done=False)
+
+
+def iter_take_while(m, ref, args, t, sp):
+    return VModel("take_while", inner=_recv_iter(m, args[0], sp), f=args[1], done=False)
+
+
+def iter_skip_while(m, ref, args, t, sp):
+    return VModel("skip_while", inner=_recv_iter(m, args[0], sp), f=args[1], started=False)
+
+
+def iter_map_while(m, ref, args, t, sp):
+    return VModel("map_while", inner=_recv_iter(m, args[0], sp), f=args[1], done=False)
+
+
+def iter_peekable(m, ref, args, t, sp):
+    return VModel("peekable", inner=_recv_iter(m, args[0], sp), peeked=None)
+
+
+def iter_fuse(m, ref, args, t, sp):
+    return VModel("fuse", inner=_recv_iter(m, args[0], sp), done=False)
+
+
+def peekable_peek(m, ref, args, t, sp):
+    it = load(m, args[0]) if isinstance(args[0], VRef) else args[0]
+    if not (isinstance(it, VModel) and it.kind == "peekable"):
+        raise Unsupported("peek on %r" % (it,))
+    if it.st["peeked"] is None:
+        ty = dest_item_ty(m, t)                  # Option<&Item>: the items themselves have type Item
+        if isinstance(ty, dict) and ty.get("k") == "ref":
+            ty = ty.get("to")
+        it.st["peeked"] = ("v", _next_any(m, it.st["inner"], sp, ty))
+    x = it.st["peeked"][1]
+    if x is None:
+        return none()
+    return some(VRef(Cell(x), (), False))
+
+
+_model_next_j = model_next
+
+
+def model_next(m, it, sp, item_ty=None):
+    k, st = it.kind, it.st
+    if k == "scan":
+        if st["done"]:
+            return None
+        x = _next_any(m, st["inner"], sp, closure_arg_ty(m, st["f"], 1))
+        if x is None:
+            return None
+        r = m.call_closure(st["f"], [VRef(st["state"], (), True), x], sp)
+        if not (isinstance(r, VStruct) and r.path == OPTION):
+            raise Unsupported("scan closure result")
+        if r.variant == 0:
+            st["done"] = True      # `None` from the closure ends the iteration, it does not skip the item
+            return None
+        return r.fields[0]
+    if k == "map_while":
+        if st["done"]:
+            return None
+        x = _next_any(m, st["inner"], sp, closure_arg_ty(m, st["f"], 0))
+        if x is None:
+            return None
+        r = m.call_closure(st["f"], [x], sp)
+        if not (isinstance(r, VStruct) and r.path == OPTION):
+            raise Unsupported("map_while closure result")
+        if r.variant == 0:
+            st["done"] = True
+            return None
+        return r.fields[0]
+    if k == "take_while":
+        if st["done"]:
+            return None
+        x = _next_any(m, st["inner"], sp, item_ty)
+        if x is None:
+            return None
+        r = m.call_closure(st["f"], [VRef(Cell(x), (), False)], sp)
+        if not is_cond(r):
+            raise Unsupported("take_while predicate")
+        if m.truth(r, sp, "take_while"):
+            return x
+        st["done"] = True          # the element that failed the test is consumed and dropped
+        return None
+    if k == "skip_while":
+        while True:
+            x = _next_any(m, st["inner"], sp, item_ty)
+            if x is None:
+                return None
+            if st["started"]:
+                return x
+            r = m.call_closure(st["f"], [VRef(Cell(x), (), False)], sp)
+            if not is_cond(r):
+                raise Unsupported("skip_while predicate")
+            if not m.truth(r, sp, "skip_while"):
+                st["started"] = True
+                return x
+    if k == "peekable":
+        if st["peeked"] is not None:
+            x = st["peeked"][1]
+            st["peeked"] = None
+            return x
+        return _next_any(m, st["inner"], sp, item_ty)
+    if k == "fuse":
+        if st["done"]:
+            return None
+        x = _next_any(m, st["inner"], sp, item_ty)
+        if x is None:
+            st["done"] = True
+        return x
+    return _model_next_j(m, it, sp, item_ty)
+
+
+def iter_reduce(m, ref, args, t, sp):
+    it = _recv_iter(m, args[0], sp)
+    ty = closure_arg_ty(m, args[1], 0)
+    acc = _next_any(m, it, sp, ty)
+    if acc is None:
+        return none()
+    for x in pull(m, it, sp, ty):
+        acc = m.call_closure(args[1], [acc, x], sp)
+    return some(acc)
+
+
+def chunks_exact_remainder(m, ref, args, t, sp):
+    it = load(m, args[0]) if isinstance(args[0], VRef) else args[0]
+    if not (isinstance(it, VModel) and it.kind == "chunks_exact"):
+        raise Unsupported("remainder of %r" % (it,))
+    r, k = it.st["ref"], it.st["k"]
+    n = r.hi - r.lo
+    return VRef(r.cell, r.path, r.mut, r.lo + (n // k) * k, r.hi)
+
+
+def exact_size_len(m, ref, args, t, sp):
+    it = load(m, args[0]) if isinstance(args[0], VRef) else args[0]
+    if isinstance(it, VModel) and it.kind == "chunks_exact":
+        r, k = it.st["ref"], it.st["k"]
+        return max(0, (r.hi - r.lo - it.st["pos"]) // k)
+    if isinstance(it, VModel) and it.kind == "slice_iter":
+        r = it.st["ref"]
+        return max(0, r.hi - r.lo - it.st["pos"])
+    raise Unsupported("ExactSizeIterator::len of %r" % (getattr(it, "kind", it),))
+
+
+FP_CATEGORY = "core::num::FpCategory"
+
+
+def float_classify(m, ref, args, t, sp):
+    """f64::classify: Nan, Infinite, Zero, Subnormal, Normal (variant indices 0..4), decided through the order store"""
+    v = load(m, args[0])
+    if not is_float(v):
+        raise Unsupported("classify of a non-float")
+    names = ["Nan", "Infinite", "Zero", "Subnormal", "Normal"]
+
+    def cat(i):
+        return VStruct(FP_CATEGORY, i, [], [], names[i])
+    if F.is_lit(v):
+        import math
+        x = F.litval(v)
+        if x != x:
+            return cat(0)
+        if math.isinf(x):
+            return cat(1)
+        if x == 0:
+            return cat(2)
+        return cat(3 if abs(x) < 2.2250738585072014e-308 else 4)
+    if m.truth(("isnan", v), sp, "classify"):
+        return cat(0)
+    if m.truth(("or", ("fcmp", "Eq", v, F.INF), ("fcmp", "Eq", v, F.NINF)), sp, "classify"):
+        return cat(1)
+    if m.truth(("fcmp", "Eq", v, F.ZERO), sp, "classify"):
+        return cat(2)
+    tiny = F.lit(2.2250738585072014e-308)
+    if m.truth(("and", ("fcmp", "Lt", v, tiny), ("fcmp", "Gt", v, F.mk("neg", tiny))), sp, "classify"):
+        return cat(3)
+    return cat(4)
+
+
+def float_is_normal(m, ref, args, t, sp):
+    c = float_classify(m, ref, args, t, sp)
+    return c.variant == 4
+
+
+def int_abs_diff(m, ref, args, t, sp):
+    a, b = simp(args[0]), simp(args[1])
+    if isinstance(a, int) and isinstance(b, int):
+        return abs(a - b)
+    if m.truth(("icmp", "Lt", a, b), sp, "abs_diff"):
+        return simp(Lin.lift(b) - Lin.lift(a))
+    return simp(Lin.lift(a) - Lin.lift(b))
+
+
+def bool_then_some(m, ref, args, t, sp):
+    c = args[0]
+    tv = c if isinstance(c, bool) else (m.truth(c, sp, "then_some") if is_cond(c) else None)
+    if tv is None:
+        raise Unsupported("then_some on an unknown condition")
+    return some(args[1]) if tv else none()
+
+
+def opt_replace(m, ref, args, t, sp):
+    dst, v = args
+    old = m.read_loc(dst.cell, dst.path)
+    m.write_loc(dst.cell, dst.path, some(v), sp)
+    return old
+
+
+def opt_take(m, ref, args, t, sp):
+    dst = args[0]
+    old = m.read_loc(dst.cell, dst.path)
+    m.write_loc(dst.cell, dst.path, none(), sp)
+    return old
+
+
+def result_and(m, ref, args, t, sp):
+    a, b = args
+    if isinstance(a, VStruct) and a.path == RESULT:
+        return b if a.variant == 0 else a
+    raise Unsupported("Result::and on %r" % (a,))
+
+
+def nonzero_new(m, ref, args, t, sp):
+    a = simp(args[0])
+    z = (a == 0) if isinstance(a, int) else ("icmp", "Eq", a, 0)
+    if m.truth(z, sp, "NonZero::new"):
+        return none()
+    return some(a)          # a NonZero integer is represented by its value
+
+
+def nonzero_get(m, ref, args, t, sp):
+    return load(m, args[0]) if isinstance(args[0], VRef) else args[0]
+
+
+_IT = "core::iter::traits::iterator::Iterator"
+for _n, _h in (("scan", iter_scan), ("take_while", iter_take_while), ("skip_while", iter_skip_while), ("map_while", iter_map_while),
+               ("peekable", iter_peekable), ("fuse", iter_fuse), ("reduce", iter_reduce)):
+    BY_NAME[_IT + "::" + _n] = _h
+    BY_TRAIT[(_IT, _n)] = _h
+BY_NAME["core::iter::adapters::peekable::Peekable::<I>::peek"] = peekable_peek
+BY_NAME["core::slice::iter::ChunksExact::<'a, T>::remainder"] = chunks_exact_remainder
+BY_NAME["core::slice::iter::ChunksExactMut::<'a, T>::into_remainder"] = chunks_exact_remainder
+BY_TRAIT[("core::iter::traits::exact_size::ExactSizeIterator", "len")] = exact_size_len
+BY_NAME["core::iter::traits::exact_size::ExactSizeIterator::len"] = exact_size_len
+for _p in ("core::f64::<impl f64>::", "std::f64::<impl f64>::"):
+    BY_NAME[_p + "classify"] = float_classify
+    BY_NAME[_p + "is_normal"] = float_is_normal
+BY_TRAIT[("num_traits::float::Float", "classify")] = float_classify
+BY_TRAIT[("num_traits::float::Float", "is_normal")] = float_is_normal
+for _t in ("u64", "usize", "u32", "u128", "u8", "u16", "i64", "i32", "isize"):
+    BY_NAME["core::num::<impl %s>::abs_diff" % _t] = int_abs_diff
+BY_NAME["core::bool::<impl bool>::then_some"] = bool_then_some
+BY_NAME["core::option::Option::<T>::replace"] = opt_replace
+BY_NAME["core::option::Option::<T>::take"] = opt_take
+BY_NAME["core::result::Result::<T, E>::and"] = result_and
+for _t in ("u64", "usize", "u32"):
+    BY_NAME["core::num::nonzero::NonZero::<%s>::new" % _t] = nonzero_new
+BY_NAME["core::num::nonzero::NonZero::<T>::new"] = nonzero_new
+BY_NAME["core::num::nonzero::NonZero::<T>::get"] = nonzero_get
+
+
+def int_checked_mul(m, ref, args, t, sp):
+    """checked_mul: the product when both factors are known; otherwise both outcomes are explored (a product of
+    two sample counts does overflow u64 once the counts pass 2^32) and the product itself is an unknown"""
+    a, b = simp(args[0]), simp(args[1])
+    import re as _re
+    mm = _re.search(r"<impl (\w+)>", ref.get("fn") or "")
+    lo, hi = INT_RANGE.get(mm.group(1) if mm else "u64", INT_RANGE["u64"])
+    if isinstance(a, int) and isinstance(b, int):
+        r = a * b
+        return some(r) if lo <= r <= hi else none()
+    if (isinstance(a, int) and a == 0) or (isinstance(b, int) and b == 0):
+        return some(0)
+    if isinstance(a, int) or isinstance(b, int):
+        k, x = (a, b) if isinstance(a, int) else (b, a)
+        r = simp(Lin.lift(x) * k)
+        if m.truth(("ovf", Lin.lift(r), lo, hi), sp, "checked_mul"):
+            return none()
+        return some(r)
+    if m.choose(2, ("checked_mul-overflow", sp)) == 1:
+        return none()
+    return some(VOpaque("u64", m.new_name("product")))
+
+
+for _t in ("u64", "usize", "u32", "u128", "i64", "i32"):
+    BY_NAME["core::num::<impl %s>::checked_mul" % _t] = int_checked_mul
